@@ -254,4 +254,18 @@ pub fn run_c09(ctx: &mut Ctx, replay: Option<&[String]>) {
         let tag2 = if o.starts_with("ok") { "result-ok" } else if o == "notfullrank" { "result-not-full-rank" } else { "result-other" };
         ctx.emit(&format!("c09 {}", sm(&h)), &o, h.num_rows() >= 2, &[fam, tag2]);
     }
+    // outside the property's quantifier (more rows than columns) but inside the model: the ParityOverdetermined branch
+    for _ in 0..ctx.scale(60, 600) {
+        let n = rng.range(1, 8);
+        let r = n + rng.range(1, 4);
+        let mut h = SparseMatrix::new(r, n);
+        for i in 0..r {
+            for j in 0..n {
+                if rng.chance(1, 3) {
+                    h.insert(i, j);
+                }
+            }
+        }
+        ctx.emit(&format!("c09 {}", sm(&h)), &sys_res(&h), false, &["more-rows-than-columns", "result-other"]);
+    }
 }
